@@ -797,11 +797,39 @@ func TestVerifC16Split(t *testing.T) {
 		if err != nil {
 			t.Fatal(err)
 		}
-		for _, l := range strings.Split(strings.TrimSpace(string(data)), "\n") {
-			if !strings.HasPrefix(l, "#") && strings.TrimSpace(l) != "" {
+		// a replay file may come from the other harness run (package splitcarfetcher): skip the cases this
+		// interpreter has no ops for (segs/msegs/read, local-file pieces)
+		var group []string
+		flush := func() {
+			for _, l := range group {
+				w := strings.Fields(l)
+				switch w[0] {
+				case "case", "split", "sread":
+				case "scr":
+					for _, x := range w[min(3, len(w)):] {
+						if !strings.HasPrefix(x, "m:") {
+							group = nil
+						}
+					}
+				default:
+					group = nil
+				}
+			}
+			for _, l := range group {
 				in.emit(l)
 			}
+			group = nil
 		}
+		for _, l := range strings.Split(strings.TrimSpace(string(data)), "\n") {
+			if strings.HasPrefix(l, "#") || strings.TrimSpace(l) == "" {
+				continue
+			}
+			if strings.HasPrefix(l, "case") {
+				flush()
+			}
+			group = append(group, l)
+		}
+		flush()
 		return
 	}
 	rng := zz.NewRNG(zz.Seed() ^ 0xc16)
